@@ -685,8 +685,11 @@ def spec_st(draw, kinds, nleaves, neff, allow_unused=True):
     if kind == "em_two" and unused == "explicit":
         unused = "object"
     nontensor = True if kind == "jit" else draw(st.booleans())
-    return {"kind": kind, "derive": derive, "explicit": explicit, "unused": unused, "nontensor": nontensor,
+    spec = {"kind": kind, "derive": derive, "explicit": explicit, "unused": unused, "nontensor": nontensor,
             "scale": draw(st.sampled_from([1.0, 0.5, 2.0, -1.5])), "nleaves": nleaves}
+    if kind == "sib2":
+        spec["sib3"] = draw(st.booleans())      # a plain function between the two members of the sibling (pbt/gen.py)
+    return spec
 
 
 FUNC_WEIGHTS = {
